@@ -406,7 +406,7 @@ def proc_targets(ix, name, config, full_parse=True):
     m, r = ix.routine[name]
     c = item_config(config, name)
     exclude = [k.lower() for k in (c.get('disable', []) or [])] + [k.lower() for k in (c.get('block', []) or [])]
-    mn = m['name'].lower() if m else None
+    mn = m['name'].lower() if m else ''      # free routines live in the empty scope: '#name'
     out = set()
 
     def excluded(local, scope):
@@ -422,6 +422,29 @@ def proc_targets(ix, name, config, full_parse=True):
         for o in imp['only'] or ():
             import_map[o['local']] = imp['module'].lower()
 
+    use_name = {}
+    scopes = ([m] if m is not None else []) + [r]
+    for sc in scopes:
+        for imp in sc['imports']:
+            for o in imp['only'] or ():
+                use_name[o['local']] = o['use']
+
+    ambiguous = set()
+
+    def excluded2(local, scope):
+        """
+        local spelling; a renamed symbol whose *original* name is switched off is reported or not depending
+        on how much type information the frontend attached (regex: never; full parse: subroutines yes,
+        functions no) -> such aliases are returned separately as `ambiguous`
+        """
+        if excluded(local, scope):
+            return True
+        orig = use_name.get(local, local)
+        if orig != local and excluded(orig, scope):
+            ambiguous.add(local)
+            return True
+        return False
+
     def imp_targets(imp):
         imn = imp['module'].lower()
         mod_ex = excluded(imn, None)
@@ -429,7 +452,7 @@ def proc_targets(ix, name, config, full_parse=True):
             out.add(imn)
         for o in imp['only'] or ():
             # the *local* name is matched, in the scope of the imported module
-            if not (mod_ex or excluded(o['local'].lower(), imn)):
+            if not (mod_ex or excluded2(o['local'].lower(), imn)):
                 out.add(o['local'].lower())
     for imp in r['imports']:
         imp_targets(imp)
@@ -463,6 +486,6 @@ def proc_targets(ix, name, config, full_parse=True):
                 out.add('%'.join([s['var']] + s['path']))
         else:
             nm = s['name'].lower()
-            if not excluded(nm, import_map.get(nm, mn)):
+            if not excluded2(nm, import_map.get(nm, mn)):
                 out.add(nm)
-    return out
+    return out, ambiguous
